@@ -33,6 +33,16 @@ def jelliumArgs (j : Json) : Except String (List Nat × Bool × List GQ × List 
     | cj => do pure (some (← J.gq cj))
   .ok (l, sl, k, p, c)
 
+/-- external potential: number of nuclei, `skip` (one Boolean per momentum index, by tensor factor) and the table
+`ext[k][x][j]` -/
+def extArgs (l : List Nat) (j : Json) :
+    Except String (Nat × (List Nat → Bool) × (List Nat → List Nat → Nat → GQ)) := do
+  let nn ← J.nat (← J.field j "nuclei")
+  let sk ← J.listOf J.bool (← J.field j "skip")
+  let ex ← J.listOf (J.listOf (J.listOf J.gq)) (← J.field j "ext")
+  .ok (nn, (fun k => sk.getD (C04J.tensorFactor l k) false),
+    fun k x jj => ((ex.getD (C04J.tensorFactor l k) []).getD (C04J.tensorFactor l x) []).getD jj 0)
+
 /-- the reference operator of a check: given explicitly or by name -/
 def specOp (j : Json) : Except String Spec.C04.Op := do
   let a ← J.arr j
@@ -108,6 +118,25 @@ def handle (op : String) (j : Json) : Option (Except String Json) :=
   | "c04.jellium_direct_ok" => some do
       let (l, sl, k, p, c) ← jelliumArgs j
       .ok (Json.bool (C04J.jwJelliumDirectOk tol l sl (C04J.tableFn l k) (C04J.tableFn l p) c))
+  | "c04.dbh_direct" => some do
+      let (l, sl, k, p, _) ← jelliumArgs j
+      let (nn, sk, ex) ← extArgs l j
+      .ok (J.ofOp (C04J.jwDualBasisHam tol l sl (C04J.tableFn l k) (C04J.tableFn l p) nn sk ex))
+  | "c04.dbh_direct_ok" => some do
+      let (l, sl, k, p, _) ← jelliumArgs j
+      let (nn, sk, ex) ← extArgs l j
+      .ok (Json.bool (C04J.jwDualBasisHamOk tol l sl (C04J.tableFn l k) (C04J.tableFn l p) nn sk ex))
+  | "c04.dbh_model" => some do
+      let (l, sl, k, p, _) ← jelliumArgs j
+      let (nn, sk, ex) ← extArgs l j
+      .ok (J.ofOp (C04J.dualBasisHamModel tol l sl (C04J.tableFn l k) (C04J.tableFn l p) nn sk ex))
+  | "c04.dbh_model_ok" => some do
+      let (l, sl, k, p, _) ← jelliumArgs j
+      let (nn, sk, ex) ← extArgs l j
+      .ok (Json.bool (C04J.dualBasisHamModelOk tol l sl (C04J.tableFn l k) (C04J.tableFn l p) nn sk ex))
+  | "c04.jellium_hyp" => some do
+      let (l, _, k, p, _) ← jelliumArgs j
+      .ok (Json.bool (C04J.jelliumHypOk l (C04J.tableFn l k) (C04J.tableFn l p)))
   | "c04.jellium_points" => some do
       let l ← J.natList (← J.field j "lengths")
       .ok (J.ofList J.ofNatList (C04J.allPoints l))
